@@ -201,3 +201,32 @@ Definition qlc_export (t : list item) (cid : option string) : option qprog :=
   | None => None
   end.
 End Corrected.
+
+(* ------------------------------------------------------------------------------------------ the proposed repair *)
+(* The small patch evaluated for F7 (NOT applied to the code): one kernel per export; a sub-circuit is expanded in place,
+   `for i in range(nr_of_repetitions): kernel = self._extend_kernel(operation, kernel)`.  When the patch is adopted,
+   Run.v compares against qli_export / qli_events instead of ql_export / ql_events. *)
+Section IterO.
+Context {S : Type} (f : S -> option S).
+Fixpoint iter_o (n : nat) (s : S) : option S :=
+  match n with
+  | O => Some s
+  | Datatypes.S k => match f s with Some s' => iter_o k s' | None => None end
+  end.
+End IterO.
+
+Fixpoint qli_item (i : item) (kc : list qcall) : option (list qcall) :=
+  match i with
+  | Leaf l => match leaf_calls l with Some cs => Some (kc ++ cs) | None => None end
+  | Block n body => iter_o (ofold qli_item body) (Z.to_nat n) kc
+  end.
+Definition qli_export (t : list item) (cid : option string) : option qprog :=
+  match ofold qli_item t [] with
+  | Some kc => Some (PN 0 (base_of t cid), [QKernel (KN (key t)) kc])
+  | None => None
+  end.
+Definition qli_events (t : list item) (cid : option string) : option (list ev) :=
+  match ofold qli_item t [] with
+  | Some kc => Some ([ENewProg (PN 0 (base_of t cid)); ENewKernel (KN (key t))] ++ map (ECall 0) kc ++ [EAddKernel 0 0])
+  | None => None
+  end.
